@@ -890,7 +890,8 @@ func (dc *driverContextContextual) transition(driver stateTableDriver, entry tab
 		hasRep                  bool
 		markIndex, currentIndex = entry.AsMorxContextual()
 	)
-	if markIndex != 0xFFFF {
+	// the substitution table or one of its lookups may be missing (NULL offset)
+	if markIndex != 0xFFFF && int(markIndex) < len(dc.table.Substitutions) && dc.table.Substitutions[markIndex] != nil {
 		lookup := dc.table.Substitutions[markIndex]
 		replacement, hasRep = lookup.Class(gID(buffer.Info[dc.mark].Glyph))
 	}
@@ -905,7 +906,7 @@ func (dc *driverContextContextual) transition(driver stateTableDriver, entry tab
 
 	hasRep = false
 	idx := min(buffer.idx, len(buffer.Info)-1)
-	if currentIndex != 0xFFFF {
+	if currentIndex != 0xFFFF && int(currentIndex) < len(dc.table.Substitutions) && dc.table.Substitutions[currentIndex] != nil {
 		lookup := dc.table.Substitutions[currentIndex]
 		replacement, hasRep = lookup.Class(gID(buffer.Info[idx].Glyph))
 	}
@@ -1134,6 +1135,9 @@ func (dc *driverContextInsertion) transition(driver stateTableDriver, entry tabl
 			return
 		}
 		start := markedInsertIndex
+		if int(start)+count > len(dc.insertionAction) { // the glyph list is empty for a NULL offset
+			return
+		}
 		glyphs := dc.insertionAction[start:]
 
 		before := flags&miMarkedInsertBefore != 0
@@ -1168,6 +1172,9 @@ func (dc *driverContextInsertion) transition(driver stateTableDriver, entry tabl
 		}
 		buffer.maxOps -= count
 		start := currentInsertIndex
+		if int(start)+count > len(dc.insertionAction) { // the glyph list is empty for a NULL offset
+			return
+		}
 		glyphs := dc.insertionAction[start:]
 
 		before := flags&miCurrentInsertBefore != 0
@@ -1676,7 +1683,7 @@ func getTracking(td tables.TrackData, ptem float32, trackValue float32) float32 
 
 	// Choose size.
 
-	if len(td.SizeTable) == 0 {
+	if len(td.SizeTable) == 0 || len(trackTableEntry.PerSizeTracking) < len(td.SizeTable) { // NULL offset to the values
 		return 0.
 	}
 	if len(td.SizeTable) == 1 {
